@@ -32,6 +32,7 @@ const (
 // ArgOrderDecl: a wiring fact about a call whose arguments are string constants (module names in the module manager's
 // ordering calls): the listed names appear among the arguments in this relative order.
 type ArgOrderDecl struct {
+	Calls  bool // callorder: Names are callee names; each must be called, and every call of a later one is dominated by a call of the one before it
 	Prop   string
 	Func   string
 	Method string
@@ -712,7 +713,11 @@ func cmdEntryPoints(p *Program) {
 func runArgOrderCheck(p *Program, id string) *FuncReport {
 	rep := &FuncReport{Key: "wiring:" + id}
 	for _, d := range p.Specs.ArgOrders {
-		if d.Prop != id {
+		if !propListed(d.Prop, id) {
+			continue
+		}
+		if d.Calls {
+			rep.Obligations = append(rep.Obligations, callOrderObligations(p, d)...)
 			continue
 		}
 		fn := p.Funcs[d.Func]
@@ -807,6 +812,86 @@ func stringConstsOf(v ssa.Value) []string {
 	var out []string
 	for _, e := range es {
 		out = append(out, e.s)
+	}
+	return out
+}
+
+func propListed(list, id string) bool {
+	for _, x := range strings.Split(list, ",") {
+		if x == id {
+			return true
+		}
+	}
+	return false
+}
+
+// callOrderObligations: the `callorder` declaration d. In the named function and the function literals inside it, each listed
+// callee is called, and every call of a listed callee is dominated (same function, control-flow dominance) by a call of the
+// callee listed before it: the later step can never run unless the earlier one has run in the same invocation.
+func callOrderObligations(p *Program, d ArgOrderDecl) []*Obligation {
+	type site struct {
+		fn  *ssa.Function
+		blk *ssa.BasicBlock
+		idx int
+	}
+	sites := map[string][]site{}
+	var walk func(fn *ssa.Function)
+	walk = func(fn *ssa.Function) {
+		for _, b := range fn.Blocks {
+			for i, in := range b.Instrs {
+				call, ok := in.(ssa.CallInstruction)
+				if !ok {
+					continue
+				}
+				c := call.Common()
+				callee := ""
+				if c.IsInvoke() {
+					callee = c.Method.Name()
+				} else if f := c.StaticCallee(); f != nil {
+					callee = f.Name()
+				}
+				if callee != "" {
+					sites[callee] = append(sites[callee], site{fn, b, i})
+				}
+			}
+		}
+		for _, a := range fn.AnonFuncs {
+			walk(a)
+		}
+	}
+	top := p.Funcs[d.Func]
+	if top != nil {
+		walk(top)
+	}
+	var out []*Obligation
+	for i := 0; i+1 < len(d.Names); i++ {
+		a, b := d.Names[i], d.Names[i+1]
+		o := &Obligation{Name: fmt.Sprintf("%s/wiring@callorder:%s<%s", d.Func, a, b), Kind: "effect", Func: d.Func, Goal: TrueT, Solver: "wiring-checker",
+			Status: "discharged", Note: fmt.Sprintf("in %s (function literals included), every call of %s is dominated by a call of %s", d.Func, b, a)}
+		switch {
+		case top == nil:
+			o.Status, o.Goal, o.Output = "failed", FalseT, "function "+d.Func+" was not found"
+		case len(sites[a]) == 0 || len(sites[b]) == 0:
+			o.Status, o.Goal, o.Output = "failed", FalseT, fmt.Sprintf("%s or %s is not called in %s", a, b, d.Func)
+		default:
+			for _, sb := range sites[b] {
+				dom := false
+				for _, sa := range sites[a] {
+					if sa.fn != sb.fn {
+						continue
+					}
+					if (sa.blk == sb.blk && sa.idx < sb.idx) || (sa.blk != sb.blk && sa.blk.Dominates(sb.blk)) {
+						dom = true
+					}
+				}
+				if !dom {
+					o.Status, o.Goal = "failed", FalseT
+					o.Output = fmt.Sprintf("a call of %s at %s is not preceded on every path by a call of %s", b, p.Prog.Fset.Position(sb.blk.Instrs[sb.idx].Pos()), a)
+					break
+				}
+			}
+		}
+		out = append(out, o)
 	}
 	return out
 }
